@@ -274,6 +274,17 @@ PROPS["C15"] = {
     "rule": "case = one mux lifetime with its clients; distinct_nontrivial counts distinct (#ufrags, late registration, #clients, wrapper, set of client kinds) classes",
     "assumptions": ["loopback TCP works in the sandbox"],
 }
+PROPS["C08"] = {
+    "parts": [part("TestVerifC08", race=True, q=8, t=16, tq=420, tt=3600)],
+    "level": "fault_enumeration",
+    "engine": "E4 lifecycle",
+    "technique": "crash-point style fault enumeration of Close over a scripted agent lifetime with a stuck detector (two identical goroutine dumps) as the verdict, parked-caller release check, post-close API sweep (closed error, no datagram, no callback) and goroutine census by creation site; race detector on",
+    "level_text": "Close / GracefulClose / Conn.Close injected at 9 positions (new, gathering with a STUN query outstanding, gathered, blocking Dial parked, checking, connected with traffic in flight, restarted, re-gathering, re-gathering cancelled by a further Restart) x 3 close kinds x {API goroutine, inside a callback} enumerated; "
+                  "closers 1-4, faults {none, socket write blocks until deadline or close, socket Close returns an error}, callers parked in Conn.Read / AwaitConnect / Dial sampled; repeated closes; 19 public calls after Close.",
+    "level_note": "'Bounded' is relative to the STUN gather timeout (25 ms here): it is the only timer pion/ice uses to bound I/O it cannot abort. A close that is slow but still moving is inconclusive, only a stuck one is a violation. Handlers that never return are not exercised.",
+    "rule": "case = one lifetime with one injected close; distinct_nontrivial counts distinct (position, close kind, origin, #closers, fault, parked callers) plans executed",
+    "assumptions": ["goroutines are attributed to the agent by their creation site (a go statement in a non-harness file of the module)"],
+}
 PROPS["C05"] = {
     "parts": [part("TestVerifC05", q=8, t=16, tq=900)],
     "level": "exploration",
